@@ -265,6 +265,8 @@ def chk_case(ctx, raw_enc, programs, p_yield, seed):
     sig = tuple((tids.setdefault(t, len(tids)), b, a) for (t, b, a) in STATE["events"] if a > b or True)
     STATE.setdefault("signatures", set()).add(hash(sig))
     ctx.counters["max.distinct_interleavings"] = len(STATE["signatures"])
+    ctx.seen("interleavings (sequence of (thread, levels before, levels after) per lock acquisition)", sig)
+    ctx.seen("lock acquisition orders (thread sequence)", tuple(s[0] for s in sig))
     builders = {t for (t, b, a) in STATE["events"] if a > b}
     waiting_requests = sum(1 for (t, b, a) in STATE["events"] if a == b)
     if racers >= 2:
